@@ -1144,6 +1144,7 @@ class Engine:
                     res.append(self._raise_out(s1, e1))
                     continue
                 s1.ghost["_k"] = k
+                s1.ghost["_iter_entry_env"] = dict(s1.env)  # values of the locals when the arbitrary iteration starts
                 n_before = len(s1.trace)
                 for s2, o in self.exec_block(node.body, s1):
                     if o.kind in ("next", "continue"):
@@ -1348,6 +1349,8 @@ class Engine:
                 return SeqV.concrete(list(h.items.keys()))
         if isinstance(v, tuple):
             return SeqV.concrete(v)
+        if isinstance(v, str):
+            return SeqV.concrete(list(v))  # a constant string iterates over its characters
         if is_z3(v) and v.sort() == U:
             # opaque iterable: unknown length, uninterpreted elements
             ln = z3.Function("len_U", U, z3.IntSort())(v)
